@@ -390,6 +390,17 @@ def body(env, cfg):
             if kv.p >= 1:
                 muts.append(("degree_decrease", m_reduce))
             muts += [("knotvector setter", m_kvset), ("clean", m_clean)]
+        # a curve that has no control points yet, on the same KnotVector object as one that has
+        shared = KnotVector(list(kv.U))
+        before = list(shared)
+        bare, b = Curve(shared), Curve(shared, Q)
+        sb = kmode.snapshot(b)
+        bare.knot_insert([mid])
+        bare.degree_increase(1)
+        kmode.unchanged(env, b, sb, "shared KnotVector: knot_insert / degree_increase on a curve without control points")
+        env.holds("shared KnotVector: the caller's KnotVector object is untouched by a curve without control points",
+                  len(list(shared)) == len(before) and all(x is y or x == y for x, y in zip(list(shared), before)))
+        consistent(env, b, "shared KnotVector (curve without control points): the other curve")
         for name, fn in muts:
             shared = KnotVector(list(kv.U))
             before = list(shared)
